@@ -24,7 +24,7 @@ PID = "C05"
 DICT_CANDIDATES = {"metric_dict": {"gamma": "mean"}, "integration_dict": {"method": "assume_linear"},
                    "integration_dict_target_val": {"method": "assume_linear"},
                    "integration_dict_cross_entropy": {"method": "gauss_hermite", "n_integration_samples": 3},
-                   "cluster_algo_dict": {}, "nearest_neighbors_dict": {}, "sample_predictions_dict": {}}
+                   "cluster_algo_dict": {"n_init": 1}, "nearest_neighbors_dict": {"n_neighbors": 2}, "sample_predictions_dict": {}}
 
 
 OTHER_CANDIDATES = [{"__ndarray__": [1.0, 0.4, 0.7, 0.2]}, {"__ndarray__": [[1.0], [0.4], [0.7], [0.2]]},
@@ -87,6 +87,18 @@ def paramflow_pass(tier, known, modules=("skactiveml.pool", "skactiveml.pool.mul
                 if any(v == {"dict": True} for v in cfg.values()):
                     found = R.replay_query_side_effects(K, entry, cfg, dict_candidates=DICT_CANDIDATES,
                                                         args_config={a: v for a, v in e["args"].items() if "arg:" + a in rel})
+                if found and all(f[0] == "error" for f in found):
+                    # the abstract value the solver picked for a call argument (e.g. None for a flag that must be a bool) is
+                    # rejected by the validation: retry with the fixture's own arguments, then with True for those flags
+                    for alt in ({}, {a: {"v": True} for a in e["args"] if "arg:" + a in rel}):
+                        try:
+                            f2 = R.replay_query_side_effects(K, entry, cfg, dict_candidates=DICT_CANDIDATES, args_config=alt)
+                        except Exception:
+                            continue
+                        res["validated"] += 1
+                        if f2 and not all(f[0] == "error" for f in f2):
+                            found = f2
+                            break
                 hit = [f for f in found if f[0] in wants and (e["kind"] != "param_write" or e["what"] in f[1])]
                 if not hit and e["kind"] == "alias_mutation":
                     # the aliased parameter has an unspecified non-None value in the abstract configuration ("other"):
